@@ -124,7 +124,7 @@ def set_at(val, path, new):
         if isinstance(val, Iter):
             d = {"rem": val.remaining, "start": val.start, "end": val.end, "ielem": val.elem}
             d[step] = set_at(d[step] if d[step] is not None else Top(), rest, new)
-            return Iter(val.ikind, d["rem"], d["ielem"], d["start"], d["end"], val.extra)
+            return Iter(val.ikind, d["rem"], d["ielem"], d["start"], d["end"], val.extra, val.cells, val.pos)
         return val
     return val
 
@@ -158,7 +158,7 @@ def int_leaves(val, prefix=()):
 # State
 # ----------------------------------------------------------------------------
 class State:
-    __slots__ = ("cells", "cons", "defs", "tag", "ghost", "pending")
+    __slots__ = ("cells", "cons", "defs", "tag", "ghost", "pending", "guards")
 
     def __init__(self):
         self.cells = {}
@@ -167,6 +167,7 @@ class State:
         self.tag = ()
         self.ghost = {}
         self.pending = frozenset()
+        self.guards = {}     # (var, value) -> frozenset of facts valid when scalar/enum at var has that value/variant
 
     def copy(self):
         s = State()
@@ -176,7 +177,54 @@ class State:
         s.tag = self.tag
         s.ghost = dict(self.ghost)
         s.pending = self.pending
+        s.guards = dict(self.guards)
         return s
+
+    # -- guarded facts --------------------------------------------------------------
+    def apply_guard(self, var, value):
+        """the discriminating scalar/enum at `var` is now known to be `value`: assert its guarded facts"""
+        fs = self.guards.get((var, value))
+        if not fs:
+            return
+        for f in fs:
+            if f[0] == "iv":
+                leaf = self.leaf(f[1])
+                if leaf is None:
+                    continue
+                lo, hi = max(leaf.lo, f[2]), min(leaf.hi, f[3])
+                if lo > hi:
+                    raise Infeasible()
+                if (lo, hi) != (leaf.lo, leaf.hi):
+                    self.set_leaf(f[1], _tighten(leaf, lo, hi))
+                    self.propagate(seed=LinForm({f[1]: 1}, -hi))
+                    self.propagate(seed=LinForm({f[1]: -1}, lo))
+            elif f[0] == "le":
+                self.add_le(f[1])
+            elif f[0] == "eq":
+                self.add_eq(f[1])
+            elif f[0] == "var":
+                # nested discriminator: enum at f[1] is variant set f[2]
+                v = get_at(self.cells.get(f[1][0], Top()), f[1][1])
+                if isinstance(v, Enum):
+                    keep = {i: p for i, p in v.variants.items() if i in f[2]}
+                    if not keep:
+                        raise Infeasible()
+                    if len(keep) != len(v.variants):
+                        self.cells[f[1][0]] = set_at(self.cells[f[1][0]], f[1][1], Enum(v.path, keep))
+                        if len(keep) == 1:
+                            self.apply_guard(f[1], ("v", next(iter(keep))))
+
+    def relocate_guards(self, src, dst):
+        """a value was copied from location src to dst: guards keyed below src also hold keyed below dst"""
+        if not self.guards or src is None or dst is None or src == dst:
+            return
+        sc, sp = src
+        n = len(sp)
+        add = {}
+        for (var, value), fs in self.guards.items():
+            if var[0] == sc and var[1][:n] == sp:
+                add[((dst[0], dst[1] + var[1][n:]), value)] = fs
+        self.guards.update(add)
 
     # -- bounds -----------------------------------------------------------------
     def leaf(self, var):
@@ -234,6 +282,29 @@ class State:
             for k in dead:
                 del self.defs[k]
 
+    def kill_guards(self, cell, path=(), whole_cell=False):
+        if not self.guards:
+            return
+        n = len(path)
+
+        def under(v):
+            return v[0] == cell and (whole_cell or v[1][:n] == path)
+        new = {}
+        for (var, value), fs in self.guards.items():
+            if under(var):
+                continue
+            keep = []
+            for f in fs:
+                if f[0] in ("iv", "var"):
+                    if under(f[1]):
+                        continue
+                elif any(under(v) for v in f[1].terms):
+                    continue
+                keep.append(f)
+            if keep:
+                new[(var, value)] = frozenset(keep)
+        self.guards = new
+
     def _rewrite_defs(self, v, dying):
         users = [k for k, d in self.defs.items() if k not in dying and d[0] == "cmp" and (v in d[2].terms or v in d[3].terms)]
         if not users:
@@ -256,6 +327,7 @@ class State:
             self.defs[k] = (d[0], d[1], d[2].subst(v, repl), d[3].subst(v, repl))
 
     def kill_loc(self, cell, path=()):
+        self.kill_guards(cell, path)
         n = len(path)
         vs = set(self.vars_under(cell, path))
         for k, d in self.defs.items():
@@ -267,6 +339,7 @@ class State:
         self.kill_vars(vs)
 
     def kill_cell(self, cell):
+        self.kill_guards(cell, (), True)
         self.kill_loc(cell, ())
         self.cells.pop(cell, None)
 
@@ -430,7 +503,112 @@ def join_states(a, b, widen=False, thresholds=()):
             g[k] = None
     out.ghost = g
     out.pending = a.pending | b.pending
+    if not widen:
+        out.guards = join_guards(a, b, out)
+    else:
+        out.guards = {k: v for k, v in a.guards.items() if b.guards.get(k) == v}
     return out
+
+
+def _discriminators(val, prefix=(), depth=0):
+    """yield (path, kind, value) for enum nodes ('enum', set of variant idx) and 1-bit scalars ('bool', Int)"""
+    if depth > 3:
+        return
+    if isinstance(val, Enum):
+        yield prefix, "enum", frozenset(val.variants)
+        for vi, fs in val.variants.items():
+            for i, f in enumerate(fs):
+                yield from _discriminators(f, prefix + (("v", vi), i), depth + 1)
+    elif isinstance(val, Int):
+        if val.bits == 1:
+            yield prefix, "bool", val
+    elif isinstance(val, Struct) and depth < 2:
+        for i, f in enumerate(val.fields):
+            yield from _discriminators(f, prefix + (i,), depth + 1)
+
+
+def _lost_facts(s, out, limit=60):
+    """facts that hold in state s but not in the joined state out"""
+    facts = []
+    for cell, v in s.cells.items():
+        vo = out.cells.get(cell)
+        if vo is None or vo is v:
+            continue
+        for p, leaf in int_leaves(v):
+            lo_ = get_at(vo, p)
+            if isinstance(lo_, Int) and (leaf.lo > lo_.lo or leaf.hi < lo_.hi):
+                facts.append(("iv", (cell, p), leaf.lo, leaf.hi))
+        for p, kind, val in _discriminators(v):
+            if kind == "enum":
+                eo = get_at(vo, p)
+                if isinstance(eo, Enum) and len(eo.variants) > len(val):
+                    facts.append(("var", (cell, p), val))
+        if len(facts) > limit:
+            break
+    for c in s.cons.eq:
+        if c not in out.cons.eq:
+            facts.append(("eq", c))
+    for c in s.cons.le:
+        if c not in out.cons.le:
+            facts.append(("le", c))
+    return facts[:limit * 2]
+
+
+def join_guards(a, b, out):
+    keys = set(a.guards) | set(b.guards)
+    # new discriminating keys: enum nodes / bools on which the two states differ
+    new_keys = set()
+    for cell in set(a.cells) & set(b.cells):
+        va, vb = a.cells[cell], b.cells[cell]
+        if va is vb:
+            continue
+        if cell[0] not in ("L",):
+            continue
+        da = {p: (k, v) for p, k, v in _discriminators(va)}
+        db = {p: (k, v) for p, k, v in _discriminators(vb)}
+        for p in set(da) & set(db):
+            ka, xa = da[p]
+            kb, xb = db[p]
+            if ka != kb:
+                continue
+            if ka == "enum" and xa != xb:
+                for i in xa | xb:
+                    new_keys.add(((cell, p), ("v", i)))
+            elif ka == "bool" and xa.is_const() and xb.is_const() and xa.lo != xb.lo:
+                new_keys.add(((cell, p), xa.lo))
+                new_keys.add(((cell, p), xb.lo))
+    if not keys and not new_keys:
+        return {}
+    lost_a = lost_b = None
+    res = {}
+
+    def feasible(s, key):
+        var, value = key
+        v = get_at(s.cells.get(var[0], Top()), var[1])
+        if isinstance(value, tuple):
+            if isinstance(v, Enum):
+                return value[1] in v.variants
+            return not isinstance(v, Bot)
+        if isinstance(v, Int):
+            return v.lo <= value <= v.hi
+        return not isinstance(v, Bot)
+    for key in keys | new_keys:
+        fa, fb = feasible(a, key), feasible(b, key)
+        if not fa and not fb:
+            continue
+        if lost_a is None:
+            lost_a, lost_b = _lost_facts(a, out), _lost_facts(b, out)
+        if fa and not fb:
+            fs = set(a.guards.get(key, ())) | set(lost_a)
+        elif fb and not fa:
+            fs = set(b.guards.get(key, ())) | set(lost_b)
+        else:
+            sa = set(a.guards.get(key, ())) | set(lost_a)
+            sb = set(b.guards.get(key, ())) | set(lost_b)
+            fs = sa & sb
+        if fs:
+            res[key] = frozenset(fs)
+    return res
 
 
 def state_leq(a, b):
@@ -455,4 +633,30 @@ def state_leq(a, b):
             return False
     if not a.pending <= b.pending:
         return False
+    for k, fs in b.guards.items():
+        if a.guards.get(k) == fs:
+            continue
+        var, value = k
+        v = get_at(a.cells.get(var[0], Top()), var[1])
+        if isinstance(value, tuple):
+            if isinstance(v, Enum) and value[1] not in v.variants:
+                continue
+        elif isinstance(v, Int) and not (v.lo <= value <= v.hi):
+            continue
+        mine = a.guards.get(k, frozenset())
+        for f in fs:
+            if f in mine:
+                continue
+            if f[0] == "iv":
+                leaf = a.leaf(f[1])
+                if leaf is None or leaf.lo < f[2] or leaf.hi > f[3]:
+                    return False
+            elif f[0] == "le":
+                if not a.entails_le(f[1]):
+                    return False
+            elif f[0] == "eq":
+                if not a.entails_eq(f[1]):
+                    return False
+            else:
+                return False
     return True
